@@ -66,7 +66,10 @@ ASSUMPTIONS = [
     "np.random.uniform(0,1,(r,c)) consumes r*c doubles of the global legacy stream and fills the matrix row by row "
     "(checked on every seeded run against RandomState(seed).uniform(size=total))",
     "L-BFGS-B (scipy) is a deterministic function of the objective/gradient values it is given",
-    "C18_scale_cpals_run_partial: whole-run scale equivariance of CP-ALS is validated on the implementation only",
+    "C18_scale_cpals_run (whole-run scale equivariance of CP-ALS) is proved for the C09 model of cp_als.py in exact "
+    "arithmetic, assuming both runs return, norm() != 0, the MTTKRP / innerprod interface laws (C02), the solver "
+    "contract A.Y = B, and that every coefficient matrix of the unscaled run is zero or non-singular (automatic for "
+    "rank 1); the paired runs check it on the implementation up to rounding",
 ]
 EXHAUSTIVE = {"quick": False, "thorough": False}
 TRUSTED_EXTRA = ["recording subclass of tensor/sptensor (attribute access seen from frames of pyttb driver files)"]
@@ -612,7 +615,10 @@ class Scale(Family):
     counts unchanged — for c over 18 orders of magnitude (an absolute threshold anywhere in a driver shows only
     far away from 1)."""
     name = "scale"
-    theorems = ("C18_scale_als_step", "C18_scale_als_zero_guard", "C18_scale_cpals_run_partial", "C18_scale_fit",
+    theorems = ("C18_scale_als_step", "C18_scale_als_zero_guard", "C18_scale_als_step_colscaled",
+                "C18_scale_cpals_mode_update", "C18_scale_cpals_tensor", "C18_scale_cpals_pass",
+                "C18_scale_cpals_sweeps", "C18_scale_cpals_cleanup", "C18_scale_cpals_run",
+                "C18_scale_cpals_rank_one", "C18_scale_fit",
                 "C18_scale_hosvd", "C18_scale_hosvd_rank", "C18_scale_tucker_step")
 
     def gen(self, rng, tier):
